@@ -369,6 +369,9 @@ fn rcb_oracle(
 // ------------------------------------------------------------------ runner
 
 pub fn run_op(ctx: &mut Ctx, op: &str) {
+    if ctx.hang_limit_reached() {
+        return;
+    }
     let Some(parsed) = parse_op(op) else {
         ctx.count("bad-op");
         ctx.record(op.to_string(), "bad-op".into(), false);
